@@ -29,7 +29,7 @@ Print Assumptions C12_sorted_perm_unique.
    for constraints in every system and for string requirements outside npm. *)
 Theorem C12_exact : forall O rk l v,
   (N.eqb (pk_sys (vk_pkg rk)) sys_npm = true -> o_constraint O sys_npm (vk_ver rk) = true) ->
-  In v (snd (match_requirement O rk l)) <->
+  In v (match_requirement O rk l) <->
   In v l /\ satisfies O (pk_sys (vk_pkg rk)) (vk_ver rk) v = true.
 Proof. exact match_requirement_exact. Qed.
 Print Assumptions C12_exact.
@@ -38,13 +38,13 @@ Print Assumptions C12_exact.
    string or one of whose tags equals it; the result is empty when there is none *)
 Theorem C12_npm_tag : forall O req l,
   o_constraint O sys_npm req = false ->
-  snd (match_npm O req l) = firstn 1 (filter (npm_exact req) (sort_npm O l)).
+  match_npm O req l = firstn 1 (filter (npm_exact req) (sort_npm O l)).
 Proof. exact match_npm_exact_string. Qed.
 Print Assumptions C12_npm_tag.
 
 (* in both npm cases the result is a sublist of the list in npm order *)
 Theorem C12_npm_result : forall O req l,
-  snd (match_npm O req l) =
+  match_npm O req l =
     if o_constraint O sys_npm req then filter (satisfies O sys_npm req) (sort_npm O l)
     else firstn 1 (filter (satisfies O sys_npm req) (sort_npm O l)).
 Proof. exact match_npm_spec. Qed.
@@ -106,7 +106,7 @@ Theorem C12_perm_npm : forall O rk l l',
   N.eqb (pk_sys (vk_pkg rk)) sys_npm = true ->
   cmp_laws (npm_parses O) (o_compare O sys_npm) ->
   NoDup (map ver l) -> Permutation l l' ->
-  snd (match_requirement O rk l) = snd (match_requirement O rk l').
+  match_requirement O rk l = match_requirement O rk l'.
 Proof. exact match_requirement_npm_perm. Qed.
 Print Assumptions C12_perm_npm.
 
@@ -148,7 +148,7 @@ Theorem C12_perm : forall O var ops1 ops2 k vs1 vs2,
   versions_of (run O var ops1) (vk_pkg k) = Ok vs1 ->
   versions_of (run O var ops2) (vk_pkg k) = Ok vs2 ->
   vs1 = vs2 /\
-  snd (matching_versions O (run O var ops1) k) = snd (matching_versions O (run O var ops2) k).
+  matching_versions O (run O var ops1) k = matching_versions O (run O var ops2) k.
 Proof.
   intros O var ops1 ops2 k vs1 vs2 HL Hv Hc P1 P2 C1 C2 Hs NE H1 H2.
   pose proof (versions_canonical O var HL ops1 ops2 (vk_pkg k) vs1 vs2 Hv Hc P1 P2 C1 C2 Hs NE H1 H2) as E.
@@ -168,8 +168,8 @@ Print Assumptions C12_perm_refuted.
 Theorem C12_perm_client_refuted :
   (forall k, option_map fst (last_add w_tie_1 k) = option_map fst (last_add w_tie_2 k)) /\
   Forall add_concrete w_tie_1 /\ Forall add_concrete w_tie_2 /\
-  snd (matching_versions tie_oracle (run tie_oracle FixAssignSort w_tie_1) w_tie_req) = Ok [w_a; w_b] /\
-  snd (matching_versions tie_oracle (run tie_oracle FixAssignSort w_tie_2) w_tie_req) = Ok [w_b; w_a].
+  matching_versions tie_oracle (run tie_oracle FixAssignSort w_tie_1) w_tie_req = Ok [w_a; w_b] /\
+  matching_versions tie_oracle (run tie_oracle FixAssignSort w_tie_2) w_tie_req = Ok [w_b; w_a].
 Proof. exact client_tie_witness. Qed.
 Print Assumptions C12_perm_client_refuted.
 
@@ -180,8 +180,8 @@ Theorem C12_perm_raw_refuted :
   (forall sys, cmp_laws (fun s => o_parses all_oracle sys s = true) (o_compare all_oracle sys)) /\
   Permutation [w_m1; w_m2] [w_m2; w_m1] /\ NoDup (map ver [w_m1; w_m2]) /\
   no_equal_distinct all_oracle sys_maven [w_m1; w_m2] /\
-  snd (match_requirement all_oracle w_req [w_m1; w_m2]) = [w_m1; w_m2] /\
-  snd (match_requirement all_oracle w_req [w_m2; w_m1]) = [w_m2; w_m1] /\
+  match_requirement all_oracle w_req [w_m1; w_m2] = [w_m1; w_m2] /\
+  match_requirement all_oracle w_req [w_m2; w_m1] = [w_m2; w_m1] /\
   gen_cmp all_oracle sys_maven w_m2 w_m1 = (-1)%Z.
 Proof. split; [exact all_oracle_laws | exact match_raw_witness]. Qed.
 Print Assumptions C12_perm_raw_refuted.
